@@ -17,7 +17,7 @@ frame (AST): `self.fun` is read only in Derivative._get_functions and Derivative
 import itertools
 import numpy as np
 import z3
-from ndvc import solve, cut
+from ndvc import solve, cut, xcheck
 from ndvc.sym import R, C, Z, B, real, integer, lift, CTX, explore, NeedsConcrete
 from ndvc.arr import SymArr, asobj, wrap
 from ndvc.overlay import installed
@@ -189,6 +189,37 @@ def check_points(tag, calls, xs, hs, kind, mc, maxnz, pre):
             solve.fact('%s:call%d:mirror-point-evaluated' % (tag, ci), found)
 
 
+def native_points(clsname, name, d):
+    def run():
+        import importlib
+        fdn = importlib.import_module('numdifftools.finite_difference')
+        from numdifftools.multicomplex import Bicomplex
+        calls = []
+
+        def rec(z, *a, **k):
+            calls.append((np.array(z.z1), np.array(z.z2)) if isinstance(z, Bicomplex) else np.array(z))
+            if isinstance(z, Bicomplex):
+                if clsname == 'JacobianDifferenceFunctions':
+                    return Bicomplex(np.array([0.5 + 0.25j, -1.0 + 0.5j]), np.array([0.125 + 1j, 0.75 - 0.5j]))
+                if clsname == 'DifferenceFunctions' and d > 0:
+                    return Bicomplex(np.asarray(z.z1) * 0 + (0.5 + 0.25j), np.asarray(z.z1) * 0 + (0.125 + 1j))
+                return Bicomplex(0.5 + 0.25j, 0.125 + 1j)
+            im = 1j if np.iscomplexobj(z) else 0          # real-step quotients need a real-valued f at real points
+            if clsname == 'JacobianDifferenceFunctions':
+                return np.array([0.5 + 0.25 * im, -1.0 + 0.5 * im])
+            if clsname == 'DifferenceFunctions' and d > 0:
+                return np.asarray(z) * 0 + (0.5 + 0.25 * im)
+            return 0.5 + 0.25 * im
+        if clsname == 'DifferenceFunctions' and d == 0:
+            x, h, fx = 0.3, 0.125, 0.5
+        else:
+            x = np.array([(3 * j - 2) / 7.0 for j in range(d)]); h = np.array([(j + 2) / 16.0 for j in range(d)])
+            fx = np.array([0.5, -0.25]) if clsname == 'JacobianDifferenceFunctions' else (x * 0 + 0.5 if clsname == 'DifferenceFunctions' else 0.5)
+        getattr(getattr(fdn, clsname), name)(rec, fx, x, h)
+        return calls
+    return run
+
+
 def run_points(clsname, d):
     info = dict(functions=[])
     with fd_env(names=('fd', 'ex', 'mc')) as m:
@@ -222,13 +253,48 @@ def run_points(clsname, d):
                 solve.fact('%s:runs' % tag, False, note=repr(e)[:300])
                 continue
             solve.fact('%s:evaluates-f' % tag, len(rec.calls) > 0, note='%d calls' % len(rec.calls))
+            # engine cross-check: the evaluation points recorded on floats with the real numpy
+            from fractions import Fraction as Fr
+            asg = {'x': Fr(3, 10), 'h': Fr(1, 8), 'fx': Fr(1, 2), 'fxi': Fr(0), 'fx0': Fr(1, 2), 'fx1': Fr(-1, 4)}
+            for j in range(max(d, 1)):
+                asg['x%d' % j] = Fr(3 * j - 2, 7); asg['h%d' % j] = Fr(j + 2, 16)
+            xcheck.defer('%s:engine==CPython(evaluation-points)' % tag, [(z.z1, z.z2) if isinstance(z, mc.Bicomplex) else z for z in rec.calls], asg,
+                         native_points(clsname, name, d), rtol=1e-12, atol=1e-14)
             maxnz = 2 if clsname == 'HessianDifferenceFunctions' else (1 if clsname != 'DifferenceFunctions' else max(d, 1))
             check_points(tag, rec.calls, xs, hs, kind, mc, maxnz, pre)
             info['functions'].append('%s.%s d=%d kind=%s calls=%d' % (clsname, name, d, kind, len(rec.calls)))
+            if clsname != 'DifferenceFunctions':
+                # re-entrant use (the documented idiom Jacobian(Gradient(f)), or f differentiating something itself): while the
+                # outer pass is suspended inside f, a second pass of the same dimension runs to completion
+                outer = []
+                state = dict(nested=0)
+                x2 = SymArr([real('y%d' % j) for j in range(d)]); h2 = SymArr([real('g%d' % j) for j in range(d)])
+                rec_in = Recorder(mc, 2 if clsname == 'JacobianDifferenceFunctions' else None)
+                rec_out = Recorder(mc, 2 if clsname == 'JacobianDifferenceFunctions' else None)
+
+                def f_outer(z, *a, **k):
+                    outer.append(z)
+                    if len(outer) in (1, 4) and state['nested'] < 2:
+                        state['nested'] += 1
+                        getattr(cls, name)(rec_in, fx, x2, h2)
+                    return rec_out(z, *a, **k)
+                try:
+                    getattr(cls, name)(f_outer, fx, x, h)
+                    ran = True
+                except NeedsConcrete:
+                    raise
+                except Exception as e:
+                    ran = False
+                    solve.fact('%s:re-entrant:runs' % tag, False, note=repr(e)[:200])
+                if ran:
+                    solve.fact('%s:re-entrant:nested-pass-ran' % tag, state['nested'] >= 1)
+                    check_points(tag + ':re-entrant-outer-pass', outer, xs, hs, kind, mc, maxnz, pre + [v.t > 0 for v in h2])
+                    check_points(tag + ':re-entrant-nested-pass', rec_in.calls, list(x2), list(h2), kind, mc, maxnz, pre + [v.t > 0 for v in h2])
             if name == '_forward' and CTX is not None:
                 # must-fail twin: a forward stencil is NOT below x
                 o = offsets(rec.calls[0], xs, mc)
                 solve.twin('%s:call0:below-x' % tag, z3.And(*[c[0] <= 0 for c in o]), pre)
+    xcheck.flush()
     return info
 
 
